@@ -1,6 +1,10 @@
 """C13: container classes -> Gen_C13.v (src_tables).
 
-Extracted, fail closed on any other shape:
+Every function is first brought into a canonical form by translator/c13_norm.py (private helpers followed, local aliases
+and module-level literals substituted, guard clauses / early returns / if-elif chains / `match` / conditional expressions /
+`and`-`or` expanded into one decision tree and rendered in one way, inverted tests turned positive, messages, annotations,
+docstrings, logging dropped, locals renamed); the patterns below are written as source text and go through the same
+normaliser.  Extracted, fail closed on any other shape:
   * TYPE_LIST of Photon, Pixel, Signal, Image, Phase (tuple of np.dtype(np.<name>));
   * the guard sequence of ArrayBase._validate (isinstance / dtype in TYPE_LIST / shape) with the exception
     class of each guard, and that the `array` setter is `self._validate(value); self._array = value`;
@@ -29,6 +33,7 @@ from __future__ import annotations
 import ast
 from pathlib import Path
 
+from . import c13_norm as N
 from .common import HEADER, body_no_doc, fail, find_func, find_funcs, parse
 from harness.core import TranslationError
 
@@ -63,7 +68,7 @@ def find_class(tree: ast.AST, name: str) -> ast.ClassDef:
     return c[0]
 
 
-def type_list_of(cls: ast.ClassDef, default=None):
+def type_list_of(cls: ast.ClassDef, default=None, module: ast.Module | None = None):
     vals = []
     for st in cls.body:
         tgt = None
@@ -80,6 +85,15 @@ def type_list_of(cls: ast.ClassDef, default=None):
     if len(vals) != 1:
         fail(cls, f"class {cls.name}: several TYPE_LIST assignments")
     v = vals[0]
+    if isinstance(v, ast.Name) and module is not None:       # TYPE_LIST = _FLOATS with `_FLOATS = (...)` at module level
+        defs = [st for st in module.body if isinstance(st, (ast.Assign, ast.AnnAssign))
+                and v.id in {n.id for n in ast.walk(st) if isinstance(n, ast.Name) and isinstance(n.ctx, ast.Store)}]
+        if len(defs) != 1 or defs[0].value is None:
+            fail(v, f"TYPE_LIST names `{v.id}`, which is not bound exactly once at module level")
+        tgt = defs[0].targets[0] if isinstance(defs[0], ast.Assign) else defs[0].target
+        if not isinstance(tgt, ast.Name):
+            fail(defs[0], "TYPE_LIST constant must be a plain module-level assignment")
+        v = defs[0].value
     if not isinstance(v, (ast.Tuple, ast.List)):
         fail(v, "TYPE_LIST must be a tuple/list literal")
     out = []
@@ -113,7 +127,7 @@ def guards(fn: ast.FunctionDef, tests: dict, ignorable: set, clip_test: str | No
            passive_assign: set):
     """Walk a validating function: returns ({guard: exc}, clip?, order list). Fails on unknown statements."""
     found, order, clip, stored = {}, [], False, False
-    for st in body_no_doc(fn):
+    for st in fn.body:
         if stored:
             fail(st, f"{fn.name}: statement after the store")
         if isinstance(st, (ast.Import, ast.ImportFrom)):
@@ -174,47 +188,31 @@ def is_warn(st):
     return isinstance(st, ast.Expr) and isinstance(st.value, ast.Call) and ast.unparse(st.value.func) == "warnings.warn"
 
 
-class _StripRaise(ast.NodeTransformer):
-    """raise X("message") -> raise X()   (messages are not property-relevant)"""
-
-    def visit_Raise(self, node):
-        if isinstance(node.exc, ast.Call):
-            node = ast.Raise(exc=ast.Call(func=node.exc.func, args=[], keywords=[]), cause=None)
-        return node
+def shape_of(fn: ast.FunctionDef) -> list[str]:
+    """Canonical text of every statement of a NORMALISED method (translator/c13_norm.py)."""
+    return [norm(st) for st in fn.body]
 
 
-def shape_of(fn: ast.FunctionDef, rename: dict | None = None) -> list[str]:
-    """Canonical text of every statement of a small method: docstring, imports and exception messages removed,
-    quotes normalised, parameter names renamed."""
-    out = []
-    for st in body_no_doc(fn):
-        if isinstance(st, (ast.Import, ast.ImportFrom)):
-            continue
-        st = _StripRaise().visit(ast.parse(ast.unparse(st)).body[0])
-        if rename:
-            for n in ast.walk(st):
-                if isinstance(n, ast.Name) and n.id in rename:
-                    n.id = rename[n.id]
-        out.append(norm(st))
-    return out
+def C(src: str, params=("self", "other")) -> list[str]:
+    """A pattern: the canonical statements of a function with this body (the same normaliser as for the source)."""
+    return N.canon_text(src, params)
 
 
-def _canon(src: str) -> str:
-    return norm(_StripRaise().visit(ast.parse(src).body[0]))
+def _one(src: str) -> str:
+    b = C(src + "\nreturn self")
+    assert len(b) == 2 and b[1] == "return self", b
+    return b[0]
 
 
-PH_G1 = _canon("if isinstance(other, np.ndarray) and isinstance(self._array, xr.DataArray):\n    raise TypeError()")
-PH_G2 = _canon("if isinstance(other, xr.DataArray) and isinstance(self._array, np.ndarray):\n    raise TypeError()")
-PH_RAW = {_canon("if self._array is not None:\n    self._array += other\nelse:\n    self._array = other"),
-          _canon("if self._array is None:\n    self._array = other\nelse:\n    self._array += other")}
-PH_SET = {_canon("if self._array is None:\n    if isinstance(other, xr.DataArray):\n        self.array_3d = other\n"
-                 "    else:\n        self.array = other\nelif isinstance(self._array, xr.DataArray):\n"
-                 "    self.array_3d += other\nelse:\n    self.array += other"),
-          _canon("if self._array is None:\n    if isinstance(other, xr.DataArray):\n        self.array_3d = other\n"
-                 "    else:\n        self.array = other\nelif isinstance(self._array, np.ndarray):\n"
-                 "    self.array += other\nelse:\n    self.array_3d += other")}
-BASE_IADD = {_canon("if self._array is not None:\n    self.array += other\nelse:\n    self.array = other"),
-             _canon("if self._array is None:\n    self.array = other\nelse:\n    self.array += other")}
+PH_G1 = _one("if isinstance(other, np.ndarray) and isinstance(self._array, xr.DataArray):\n    raise TypeError()")
+PH_G2 = _one("if isinstance(other, xr.DataArray) and isinstance(self._array, np.ndarray):\n    raise TypeError()")
+PH_RAW = {_one("if self._array is not None:\n    self._array += other\nelse:\n    self._array = other")}
+PH_SET = {_one("if self._array is None:\n    if isinstance(other, xr.DataArray):\n        self.array_3d = other\n"
+               "    else:\n        self.array = other\nelif isinstance(self._array, xr.DataArray):\n"
+               "    self.array_3d += other\nelse:\n    self.array += other"),
+          _one("if self._array is None:\n    if isinstance(other, xr.DataArray):\n        self.array_3d = other\n"
+               "    else:\n        self.array = other\nelif isinstance(self._array, np.ndarray):\n"
+               "    self.array += other\nelse:\n    self.array_3d += other")}
 COPY_EXPRS = {"self._array.copy()", "np.copy(self._array)", "self.array.copy()", "np.array(self._array)",
               "np.array(self._array, copy=True)", "self._array.copy(order=\"K\")"}
 
@@ -239,7 +237,7 @@ def is_copy_branch(stmts: list[ast.stmt]) -> bool:
 def base_iadd_kind(fn: ast.FunctionDef) -> str:
     if [a.arg for a in fn.args.args] != ["self", "other"]:
         fail(fn, f"ArrayBase.{fn.name} signature")
-    body = [st for st in body_no_doc(fn)]
+    body = list(fn.body)
     if len(body) != 2 or norm(body[1]) != "return self" or not isinstance(body[0], ast.If):
         fail(fn, f"ArrayBase.{fn.name}: expected one if/else and `return self`")
     st = body[0]
@@ -259,26 +257,28 @@ def base_iadd_kind(fn: ast.FunctionDef) -> str:
     fail(st, f"ArrayBase.{fn.name} must be `self.array += other` or the addition on a copy followed by `self.array = <copy>`")
 
 
-BASE_EQ_LEFT = [[_canon("is_true = type(self) is type(other) and self.shape == other.shape"),
-                 _canon("if is_true and self._array is not None:\n    is_true = np.array_equal(self.array, other.array)"),
-                 _canon("return is_true")]]
-_EQ_HEAD = [_canon("if not (type(self) is type(other) and self.shape == other.shape):\n    return False"),
-            _canon("if type(self) is not type(other) or self.shape != other.shape:\n    return False")]
-_EQ_NONE = [_canon("if self._array is None or other._array is None:\n    return self._array is None and other._array is None"),
-            _canon("if self._array is None or other._array is None:\n    return self._array is other._array")]
-_EQ_VAL = [_canon("return np.array_equal(self._array, other._array)"), _canon("return np.array_equal(self.array, other.array)"),
-           _canon("return bool(np.array_equal(self._array, other._array))")]
-BASE_EQ_BOTH = [[h, n, v] for h in _EQ_HEAD for n in _EQ_NONE for v in _EQ_VAL]
-PH_EQ_TYPE = _canon("if type(self) is not type(other):\n    return False")
-PH_EQ_GEOM = {_canon("if (self._num_rows, self._num_cols) != (other._num_rows, other._num_cols):\n    return False"),
-              _canon("if self._num_rows != other._num_rows or self._num_cols != other._num_cols:\n    return False")}
-PH_EQ_REST = [_canon("if self._array is other._array is None:\n    return True"),
-              _canon("if isinstance(self._array, np.ndarray):\n    return np.array_equal(self._array, other._array)"),
-              _canon("if isinstance(self._array, xr.DataArray):\n    return self._array.equals(other._array)"),
-              _canon("return False")]
-DET_PH_SAME = _canon("if obj is self._photon:\n    return")
-DET_PH_DISPATCH = {_canon("if obj._array is None:\n    self.photon.empty()\nelif isinstance(obj._array, np.ndarray):\n"
-                          "    self.photon.array = obj.array\nelse:\n    self.photon.array_3d = obj.array_3d")}
+BASE_EQ_LEFT = [C("is_true = type(self) is type(other) and self.shape == other.shape\n"
+                  "if is_true and self._array is not None:\n    is_true = np.array_equal(self.array, other.array)\n"
+                  "return is_true")]
+_EQ_HEAD = ["if not (type(self) is type(other) and self.shape == other.shape):\n    return False\n"]
+_EQ_NONE = ["if self._array is None or other._array is None:\n    return self._array is None and other._array is None\n",
+            "if self._array is None or other._array is None:\n    return self._array is other._array\n"]
+_EQ_VAL = ["return np.array_equal(self._array, other._array)", "return np.array_equal(self.array, other.array)",
+           "return bool(np.array_equal(self._array, other._array))"]
+BASE_EQ_BOTH = [C(h + n + v) for h in _EQ_HEAD for n in _EQ_NONE for v in _EQ_VAL]
+_PH_EQ_REST = ("if self._array is other._array is None:\n    return True\n"
+               "if isinstance(self._array, np.ndarray):\n    return np.array_equal(self._array, other._array)\n"
+               "if isinstance(self._array, xr.DataArray):\n    return self._array.equals(other._array)\n"
+               "return False")
+_PH_EQ_TYPE = "if type(self) is not type(other):\n    return False\n"
+PH_EQ_WITH_GEOM = [C(_PH_EQ_TYPE + g + _PH_EQ_REST) for g in (
+    "if (self._num_rows, self._num_cols) != (other._num_rows, other._num_cols):\n    return False\n",
+    "if self._num_rows != other._num_rows or self._num_cols != other._num_cols:\n    return False\n")]
+PH_EQ_NO_GEOM = [C(_PH_EQ_TYPE + _PH_EQ_REST)]
+_DET_DISPATCH = ("if obj._array is None:\n    self.photon.empty()\nelif isinstance(obj._array, np.ndarray):\n"
+                 "    self.photon.array = obj.array\nelse:\n    self.photon.array_3d = obj.array_3d")
+DET_PH_DISPATCH = [C(_DET_DISPATCH, ("self", "obj")),
+                   C("if obj is self._photon:\n    return\n" + _DET_DISPATCH, ("self", "obj"))]
 
 
 def photon_iadd_kind(fn: ast.FunctionDef) -> str:
@@ -309,14 +309,11 @@ def photon_eq_geom(fn: ast.FunctionDef) -> bool:
     if [a.arg for a in fn.args.args] != ["self", "other"]:
         fail(fn, "Photon.__eq__ signature")
     b = shape_of(fn)
-    if not b or b[0] != PH_EQ_TYPE:
-        fail(fn, "Photon.__eq__: must start with the type test")
-    rest, geom = b[1:], False
-    if rest and rest[0] in PH_EQ_GEOM:
-        rest, geom = rest[1:], True
-    if rest != PH_EQ_REST:
-        fail(fn, "Photon.__eq__: shape not accepted")
-    return geom
+    if b in PH_EQ_WITH_GEOM:
+        return True
+    if b in PH_EQ_NO_GEOM:
+        return False
+    fail(fn, "Photon.__eq__: shape not accepted")
 
 
 
@@ -345,7 +342,7 @@ def raise_after_locals(body: list[ast.stmt], node) -> str:
 def read_guards(fn: ast.FunctionDef, tests: dict, ret: set) -> dict:
     """A getter: `if <test>: ... raise E` guards (any order, each at most once), then one accepted `return`."""
     found = {}
-    body = [st for st in body_no_doc(fn) if not isinstance(st, (ast.Import, ast.ImportFrom))]
+    body = list(fn.body)
     if not body or not isinstance(body[-1], ast.Return) or norm(body[-1]) not in ret:
         fail(fn, f"{fn.name}: must end with one of {sorted(ret)}")
     for st in body[:-1]:
@@ -359,7 +356,7 @@ def read_guards(fn: ast.FunctionDef, tests: dict, ret: set) -> dict:
 
 
 def empty_kind(fn: ast.FunctionDef) -> str:
-    b = [norm(x) for x in body_no_doc(fn)]
+    b = [norm(x) for x in fn.body]
     if len(fn.args.args) != 1:
         fail(fn, "empty() signature")
     if b == ["self._array = None"]:
@@ -371,14 +368,15 @@ def empty_kind(fn: ast.FunctionDef) -> str:
 
 
 def update_kind(fn: ast.FunctionDef) -> str:
+    """normalised: `if data is None: <none branch> else: self.array = np.asarray(data)`"""
     if [a.arg for a in fn.args.args] != ["self", "data"]:
         fail(fn, "update() signature")
-    b = body_no_doc(fn)
-    if len(b) != 1 or not isinstance(b[0], ast.If) or norm(b[0].test) != "data is not None":
+    b = fn.body
+    if len(b) != 1 or not isinstance(b[0], ast.If) or norm(b[0].test) != "data is None":
         fail(fn, "update(): expected `if data is not None: ... else: ...`")
-    if [norm(x) for x in b[0].body] != ["self.array = np.asarray(data)"]:
+    if [norm(x) for x in b[0].orelse] != ["self.array = np.asarray(data)"]:
         fail(fn, "update(): the data branch must be `self.array = np.asarray(data)`")
-    e = [norm(x) for x in b[0].orelse]
+    e = [norm(x) for x in b[0].body]
     if e == ["self.empty()"]:
         return "UpdCallsEmpty"
     if e == ["self._array = None"]:
@@ -411,7 +409,7 @@ def detector_empty_table(fn: ast.FunctionDef) -> dict:
             return                                   # not a C13 bucket
         fail(st, "Detector.empty: unexpected statement")
 
-    for st in body_no_doc(fn):
+    for st in fn.body:
         if isinstance(st, ast.If):
             if norm(st.test) != "reset" or st.orelse:
                 fail(st, "Detector.empty: only `if reset:` without else is accepted")
@@ -425,7 +423,7 @@ def detector_empty_table(fn: ast.FunctionDef) -> dict:
 def mkid_phase_zero(fn) -> bool:
     if fn is None:
         return False                                  # MKID does not override empty(): the phase array is kept
-    b = [norm(x) for x in body_no_doc(fn)]
+    b = [norm(x) for x in fn.body]
     if [a.arg for a in fn.args.args] != ["self", "reset"] or not b or b[0] != "super().empty(reset)":
         fail(fn, "MKID.empty must start with super().empty(reset)")
     if len(b) == 1:
@@ -476,57 +474,49 @@ def extract(repo: Path) -> dict:
     # ---- ArrayBase
     tree = parse(repo, "pyxel/data_structure/array.py")
     base = find_class(tree, "ArrayBase")
-    base_tl = type_list_of(base, default=[])
-    val = find_func(tree, "_validate", "ArrayBase")
-    if [a.arg for a in val.args.args] != ["self", "value"]:
-        fail(val, "_validate signature")
-    # _validate has no store: treat the end of the function as the store
-    tests = {"not isinstance(value, np.ndarray)": "type", "value.dtype not in self.TYPE_LIST": "dtype",
-             "value.shape != self._shape": "shape"}
-    found, order = {}, []
-    for st in body_no_doc(val):
-        if isinstance(st, (ast.Assign, ast.AnnAssign)):
-            tgt = st.targets[0] if isinstance(st, ast.Assign) else st.target
-            if norm(tgt) == "cls_name":
-                continue
-            fail(st, "_validate: unexpected assignment")
-        if isinstance(st, ast.If) and not st.orelse and norm(st.test) in tests:
-            g = tests[norm(st.test)]
-            if g in found:
-                fail(st, "_validate: guard twice")
-            found[g] = raise_class(st.body, st)
-            order.append(g)
-            continue
-        fail(st, "_validate: statement shape not accepted")
-    check_order(val, order, ["type", "dtype", "shape"])
-    info["v"] = found
+    base_tl = type_list_of(base, default=[], module=tree)
+    base_inlined: set = set()
+    det_inlined: set = set()
+
+    def nz(fn, module, scopes, params=None, keep=()):
+        out = N.normalize(fn, module, scopes=scopes, keep=keep, params=params)
+        if scopes and scopes[0] is base:
+            base_inlined.update(out._inlined)          # helpers of ArrayBase whose body the tables now contain
+        if scopes and scopes[0].name == "Detector":
+            det_inlined.update(out._inlined)
+        return out
+
+    # the `array` setter with its private helpers (`_validate`, whatever it is split into) inlined:
+    # guards, then the store
     st_fn = setter_of(base, "array")
     if st_fn is None:
         fail(base, "ArrayBase.array has no setter")
-    b = [norm(s) for s in body_no_doc(st_fn)]
-    # aliasing is not a property-relevant observable: storing a copy of the validated array is the same thing
-    if (len(b) != 2 or b[0] != "self._validate(value)"
-            or b[1] not in {"self._array = " + v for v in ("value", "value.copy()", "np.copy(value)", "np.array(value)",
-                                                          "np.array(value, copy=True)")}):
-        fail(st_fn, "ArrayBase.array setter must be `self._validate(value); self._array = value` (or a copy of it)")
+    found, clip, order = guards(
+        nz(st_fn, tree, [base], ["self", "value"]),
+        tests={"not isinstance(value, np.ndarray)": "type", "value.dtype not in self.TYPE_LIST": "dtype",
+               "value.shape != self._shape": "shape"},
+        ignorable=set(), clip_test=None, clip_ok=None,
+        # aliasing is not a property-relevant observable: storing a copy of the validated array is the same thing
+        store_ok=lambda v: v in ("value", "value.copy()", "np.copy(value)", "np.array(value)", "np.array(value, copy=True)"),
+        passive_assign={})
+    check_order(st_fn, order, ["type", "dtype", "shape"])
+    info["v"] = found
     init = find_func(tree, "__init__", "ArrayBase")
-    ib = [norm(s) for s in body_no_doc(init)]
+    ib = shape_of(nz(init, tree, [base], ["self", "shape"]))
     if "self._shape = shape" not in ib or not any(s.startswith("self._array") and s.endswith("= None") for s in ib):
         fail(init, "ArrayBase.__init__ must set `self._array = None` and `self._shape = shape`")
 
     for nm, key in (("__iadd__", "b_iadd"), ("__add__", "b_add")):
-        info[key] = base_iadd_kind(find_func(tree, nm, "ArrayBase"))
-    info["base_eq"] = base_eq_kind(find_func(tree, "__eq__", "ArrayBase"))
-    init_fn = find_func(tree, "_is_array_initialized")
-    if [norm(x) for x in body_no_doc(init_fn)] != ["return data is not None"]:
-        fail(init_fn, "_is_array_initialized must be `return data is not None`")
+        info[key] = base_iadd_kind(nz(find_func(tree, nm, "ArrayBase"), tree, [base], ["self", "other"]))
+    info["base_eq"] = base_eq_kind(nz(find_func(tree, "__eq__", "ArrayBase"), tree, [base], ["self", "other"]))
     rd = {}
-    rd["base"] = read_guards(getter_of(base, "array"), {t: "none" for t in NONE_TESTS}, {"return self._array"})
-    rd["aa_base"] = read_guards(find_func(tree, "__array__", "ArrayBase"),
+    rd["base"] = read_guards(nz(getter_of(base, "array"), tree, [base], ["self"]), {t: "none" for t in NONE_TESTS},
+                             {"return self._array"})
+    rd["aa_base"] = read_guards(nz(find_func(tree, "__array__", "ArrayBase"), tree, [base]),
                                 {"not isinstance(self._array, np.ndarray)": "notnp"},
                                 {"return np.asarray(self._array, dtype=dtype)", "return np.asarray(self._array)"})
-    empties = {"ArrayBase": empty_kind(find_func(tree, "empty", "ArrayBase"))}
-    updates = {"ArrayBase": update_kind(find_func(tree, "update", "ArrayBase"))}
+    empties = {"ArrayBase": empty_kind(nz(find_func(tree, "empty", "ArrayBase"), tree, [base]))}
+    updates = {"ArrayBase": update_kind(nz(find_func(tree, "update", "ArrayBase"), tree, [base]))}
 
     # ---- subclasses
     tls = {}
@@ -536,35 +526,39 @@ def extract(repo: Path) -> dict:
         if cname == "Photon":
             if cls.bases:
                 fail(cls, "Photon is modelled as a class of its own (no base class)")
-            tls[cname] = type_list_of(cls)
+            tls[cname] = type_list_of(cls, module=t)
             continue
         if [ast.unparse(x) for x in cls.bases] != ["ArrayBase"]:
             fail(cls, f"{cname} must derive from ArrayBase only")
-        tls[cname] = type_list_of(cls, default=base_tl)
+        tls[cname] = type_list_of(cls, default=base_tl, module=t)
         over = {n.name for n in cls.body if isinstance(n, ast.FunctionDef)} & BASE_ONLY
         if over:
             fail(cls, f"{cname} redefines {sorted(over)}; the model takes these from ArrayBase")
+        for n in cls.body:       # a followed (inlined) private helper of ArrayBase redefined by the subclass
+            if isinstance(n, ast.FunctionDef) and n.name in base_inlined and not N.is_message_only(n):
+                fail(n, f"{cname} redefines the helper {n.name} that ArrayBase's methods were read through")
         ini = find_func(t, "__init__", cname)
-        if [norm(s) for s in body_no_doc(ini)] != ["super().__init__(shape=(geo.row, geo.col))"]:
+        if shape_of(nz(ini, t, [cls, base], ["self", "geo"])) not in (["super().__init__(shape=(geo.row, geo.col))"],
+                                                                      ["super().__init__((geo.row, geo.col))"]):
             fail(ini, f"{cname}.__init__ must be super().__init__(shape=(geo.row, geo.col))")
         fe, fu = own_method(cls, "empty"), own_method(cls, "update")
-        empties[cname] = empty_kind(fe) if fe is not None else empties["ArrayBase"]
-        updates[cname] = update_kind(fu) if fu is not None else updates["ArrayBase"]
+        empties[cname] = empty_kind(nz(fe, t, [cls, base])) if fe is not None else empties["ArrayBase"]
+        updates[cname] = update_kind(nz(fu, t, [cls, base])) if fu is not None else updates["ArrayBase"]
     info["type_lists"] = tls
 
     # ---- Photon
     t = parse(repo, "pyxel/data_structure/photon.py")
     ph = find_class(t, "Photon")
     ini = find_func(t, "__init__", "Photon")
-    ib = [norm(s) for s in body_no_doc(ini)]
-    for need in ("self._num_rows: int = geo.row", "self._num_cols: int = geo.col"):
-        if need not in ib and need.replace(": int", "") not in ib:
+    ib = shape_of(nz(ini, t, [ph], ["self", "geo"]))
+    for need in ("self._num_rows = geo.row", "self._num_cols = geo.col"):
+        if need not in ib:
             fail(ini, f"Photon.__init__ must contain `{need}`")
     s2 = setter_of(ph, "array")
     if s2 is None:
         fail(ph, "Photon.array has no setter")
     f2, clip2, o2 = guards(
-        s2,
+        nz(s2, t, [ph], ["self", "value"]),
         tests={"not isinstance(value, np.ndarray)": "type", "value.dtype not in self.TYPE_LIST": "dtype",
                "value.ndim != 2": "ndim", "value.shape != (self._num_rows, self._num_cols)": "shape"},
         ignorable={"isinstance(self._array, np.ndarray) and (not isinstance(value, np.ndarray))"},
@@ -573,50 +567,50 @@ def extract(repo: Path) -> dict:
                               ("value = np.clip(value, a_min=0.0, a_max=None)", "value = np.clip(value, a_min=0, a_max=None)")
                               and all(is_warn(s) for s in body[1:])),
         store_ok=lambda v: v in ("value.copy()", "value"),
-        passive_assign={"cls_name": None})
+        passive_assign={})
     check_order(s2, o2, ["type", "dtype", "ndim", "shape", "clip"])
     info["p"], info["p_clip"] = f2, clip2
     s3 = setter_of(ph, "array_3d")
     if s3 is None:
         fail(ph, "Photon.array_3d has no setter")
     f3, clip3, o3 = guards(
-        s3,
+        nz(s3, t, [ph], ["self", "value"]),
         tests={"not isinstance(value, xr.DataArray)": "type", "value.dtype not in self.TYPE_LIST": "dtype",
-               "value.ndim != 3": "ndim", "value.dims != expected_dims": "dims",
-               '(shape_3d["y"], shape_3d["x"]) != (self._num_rows, self._num_cols)': "shape",
+               "value.ndim != 3": "ndim", 'value.dims != ("wavelength", "y", "x")': "dims",
+               '(value.sizes["y"], value.sizes["x"]) != (self._num_rows, self._num_cols)': "shape",
                '"wavelength" not in value.coords': "coord"},
         ignorable={"isinstance(self._array, xr.DataArray) and (not isinstance(value, xr.DataArray))"},
         clip_test="np.any(value < 0)",
         clip_ok=lambda body: (len(body) >= 1 and norm(body[0]) in ("value = value.clip(min=0.0)", "value = value.clip(min=0)")
                               and all(is_warn(s) for s in body[1:])),
         store_ok=lambda v: v in ("value.copy()", "value"),
-        passive_assign={"cls_name": None, "expected_dims": '("wavelength", "y", "x")', "shape_3d": "value.sizes"})
+        passive_assign={})
     check_order(s3, o3, ["type", "dtype", "ndim", "dims", "shape", "coord", "clip"])
     info["q"], info["q_clip"] = f3, clip3
 
-    rd["ph2"] = read_guards(getter_of(ph, "array"), {**{t: "none" for t in NONE_TESTS},
+    rd["ph2"] = read_guards(nz(getter_of(ph, "array"), t, [ph], ["self"]), {**{t: "none" for t in NONE_TESTS},
                                                     "isinstance(self._array, xr.DataArray)": "other"}, {"return self._array"})
-    rd["ph3"] = read_guards(getter_of(ph, "array_3d"), {**{t: "none" for t in NONE_TESTS},
+    rd["ph3"] = read_guards(nz(getter_of(ph, "array_3d"), t, [ph], ["self"]), {**{t: "none" for t in NONE_TESTS},
                                                        "isinstance(self._array, np.ndarray)": "other"}, {"return self._array"})
-    rd["aa_ph"] = read_guards(find_func(t, "__array__", "Photon"), {t: "none" for t in NONE_TESTS},
+    rd["aa_ph"] = read_guards(nz(find_func(t, "__array__", "Photon"), t, [ph]), {t: "none" for t in NONE_TESTS},
                               {"return np.asarray(self.array, dtype=dtype)", "return np.asarray(self.array)"})
     info["reads"] = rd
-    empties["Photon"] = empty_kind(find_func(t, "empty", "Photon"))
+    empties["Photon"] = empty_kind(nz(find_func(t, "empty", "Photon"), t, [ph]))
     if own_method(ph, "update") is not None:
         fail(ph, "Photon.update is not modelled")
     info["empties"], info["updates"] = empties, updates
-    info["ph_iadd"] = photon_iadd_kind(find_func(t, "__iadd__", "Photon"))
-    info["ph_add"] = photon_iadd_kind(find_func(t, "__add__", "Photon"))
-    info["ph_eq_geom"] = photon_eq_geom(find_func(t, "__eq__", "Photon"))
+    info["ph_iadd"] = photon_iadd_kind(nz(find_func(t, "__iadd__", "Photon"), t, [ph], ["self", "other"]))
+    info["ph_add"] = photon_iadd_kind(nz(find_func(t, "__add__", "Photon"), t, [ph], ["self", "other"]))
+    info["ph_eq_geom"] = photon_eq_geom(nz(find_func(t, "__eq__", "Photon"), t, [ph], ["self", "other"]))
 
     # the alias property `array_2d` must delegate to `array` (the driver uses both entry points, the model one)
     g2 = [n for n in ph.body if isinstance(n, ast.FunctionDef) and n.name == "array_2d"
           and any(ast.unparse(d) == "property" for d in n.decorator_list)]
     st2 = setter_of(ph, "array_2d")
     if g2 or st2 is not None:
-        if len(g2) != 1 or [norm(x) for x in body_no_doc(g2[0])] != ["return self.array"]:
+        if len(g2) != 1 or shape_of(nz(g2[0], t, [ph], ["self"])) != ["return self.array"]:
             fail(ph, "Photon.array_2d getter must be `return self.array`")
-        if st2 is None or [norm(x) for x in body_no_doc(st2)] != ["self.array = value"]:
+        if st2 is None or shape_of(nz(st2, t, [ph], ["self", "value"])) != ["self.array = value"]:
             fail(ph, "Photon.array_2d setter must be `self.array = value`")
 
     # ---- Detector setters
@@ -628,39 +622,43 @@ def extract(repo: Path) -> dict:
         if fn is None:
             setters[bucket] = "SetterNone"
             continue
-        b = [norm(s) for s in body_no_doc(fn)]
-        arg = fn.args.args[1].arg if len(fn.args.args) == 2 else None
-        if b == [f"self.{bucket}.array = {arg}.array"]:
+        if len(fn.args.args) != 2:
+            fail(fn, f"Detector.{bucket} setter signature")
+        b = shape_of(nz(fn, t, [det], ["self", "obj"]))
+        if b == [f"self.{bucket}.array = obj.array"]:
             setters[bucket] = "SetterValidating"
-        elif b == [f"self.{bucket}._array = {arg}._array"]:
+        elif b == [f"self.{bucket}._array = obj._array"]:
             setters[bucket] = "SetterRaw"
-        elif bucket == "photon" and arg is not None:
-            sh = shape_of(fn, rename={arg: "obj"})
-            if sh and sh[0] == DET_PH_SAME:          # `detector.photon += x` hands the same object back
-                sh = sh[1:]
-            if len(sh) == 1 and sh[0] in DET_PH_DISPATCH:
-                setters[bucket] = "SetterDispatch"
-            else:
-                fail(fn, "Detector.photon setter shape not accepted")
+        elif bucket == "photon" and b in DET_PH_DISPATCH:   # with / without `if obj is self._photon: return` in front
+            setters[bucket] = "SetterDispatch"
         else:
             fail(fn, f"Detector.{bucket} setter shape not accepted")
-    info["d_empty"] = detector_empty_table(find_func(t, "empty", "Detector"))
+    info["d_empty"] = detector_empty_table(nz(find_func(t, "empty", "Detector"), t, [det]))
     t = parse(repo, "pyxel/detectors/mkid/mkid.py")
     mk = find_class(t, "MKID")
-    info["mkid_phase_zero"] = mkid_phase_zero(own_method(mk, "empty"))
+    mke = own_method(mk, "empty")
+    info["mkid_phase_zero"] = mkid_phase_zero(nz(mke, t, [mk]) if mke is not None else None)
     fn = setter_of(mk, "phase")
     if fn is None:
         setters["phase"] = "SetterNone"
     else:
-        b = [norm(s) for s in body_no_doc(fn)]
-        arg = fn.args.args[1].arg if len(fn.args.args) == 2 else None
-        if b == [f"self.phase.array = {arg}.array"]:
+        if len(fn.args.args) != 2:
+            fail(fn, "MKID.phase setter signature")
+        b = shape_of(nz(fn, t, [mk], ["self", "obj"]))
+        if b == ["self.phase.array = obj.array"]:
             setters["phase"] = "SetterValidating"
-        elif b == [f"self.phase._array = {arg}._array"]:
+        elif b == ["self.phase._array = obj._array"]:
             setters["phase"] = "SetterRaw"
         else:
             fail(fn, "MKID.phase setter shape not accepted")
     info["setters"] = setters
+    # a followed private helper of Detector must not be redefined by a detector class (virtual dispatch)
+    for rel, cname in (("pyxel/detectors/ccd/ccd.py", "CCD"), ("pyxel/detectors/cmos/cmos.py", "CMOS"),
+                       ("pyxel/detectors/mkid/mkid.py", "MKID"), ("pyxel/detectors/apd/apd.py", "APD")):
+        sub = find_class(parse(repo, rel), cname)
+        for n in sub.body:
+            if isinstance(n, ast.FunctionDef) and n.name in det_inlined and not N.is_message_only(n):
+                fail(n, f"{cname} redefines the helper {n.name} that Detector's methods were read through")
     return info
 
 
